@@ -48,7 +48,7 @@ type TravStep struct {
 
 type Edit struct {
 	Path   []int       `json:"path,omitempty"` // nested block indices (modulo the number of blocks at each level)
-	Op     string      `json:"op"`             // set-value set-traversal set-raw remove-attr append-block remove-block set-labels remove-first-item
+	Op     string      `json:"op"`             // set-value set-traversal set-raw remove-attr append-block remove-block set-labels remove-first-item bulk-append
 	Name   int         `json:"name"`           // >=0: existing attribute number (modulo), <0: a new name
 	Type   cfggen.Type `json:"type,omitempty"`
 	Val    cfggen.Val  `json:"val,omitempty"`
@@ -58,6 +58,10 @@ type Edit struct {
 	BType  string      `json:"btype,omitempty"`
 	Labels []string    `json:"labels,omitempty"`
 	Block  int         `json:"block,omitempty"`
+	// bulk-append: N items appended through the API, one call each: SetAttributeValue of
+	// a new name, every BlockEvery-th item AppendNewBlock (see scale_test.go)
+	N          int `json:"n,omitempty"`
+	BlockEvery int `json:"block_every,omitempty"`
 }
 
 type CaseB struct {
@@ -75,6 +79,86 @@ type CaseB struct {
 	// SetLabels returned, the caller overwrites the elements of the Tokens, Traversal and
 	// label slices it passed
 	MutateArgs bool `json:"mutate_args,omitempty"`
+	// Bulk: a large run of items written in front of / behind Src (scale cases; see scale_test.go)
+	Bulk *Bulk `json:"bulk,omitempty"`
+}
+
+func (c *CaseB) source() string { return withBulk(c.Src, c.Bulk) }
+
+// manyEdits: above this number of edits the file is serialised at checkpoints only
+// (after the first and the last four edits and after the middle one).
+const manyEdits = 16
+
+func serialiseAfter(i, n int) bool {
+	return n <= manyEdits || i < 4 || i >= n-4 || i == n/2
+}
+
+// genScaleB: the scale dimension of (b).  what = items-in-source: a body of N items is
+// parsed and 3-8 edits are aimed across it; items-via-api: 3-8 edits and one
+// bulk-append of N items before, between or behind them; edits: a history of N edits.
+func genScaleB(t *rapid.T, c *CaseB) {
+	what := rapid.SampledFrom([]string{"items-in-source", "items-in-source", "items-via-api", "items-via-api", "edits"}).Draw(t, "scale-what")
+	if what == "edits" {
+		// one edit costs a pass over its body: the pool is cut at 1025 (thorough: 2049) edits per history
+		n := genScaleCount(t, "scale-edits", 1025, 2049)
+		c.Edits = nil
+		for i := 0; i < n; i++ {
+			c.Edits = append(c.Edits, genEdit(t))
+		}
+		return
+	}
+	var path []int
+	n, ne := 0, rapid.IntRange(3, 8).Draw(t, "nedits")
+	bulkAt := -1
+	var bulk Edit
+	if what == "items-in-source" {
+		bl := &Bulk{N: genScaleCount(t, "scale-items", 2049, 8193), BlockEvery: genBlockEvery(t), Nest: rapid.SampledFrom([]int{0, 0, 1, 2}).Draw(t, "bulk-nest")}
+		bl.After = bl.Nest == 0 && rapid.Bool().Draw(t, "bulk-after")
+		c.Bulk = bl
+		n = bl.N
+		for i := 0; i < bl.Nest; i++ {
+			path = append(path, 0) // the wrapping block is the first block of its body
+		}
+	} else {
+		// every append re-reads the tokens of its body (Body.startNewLine), N appends
+		// are quadratic: the pool is cut at 513 (thorough: 2049) items appended through the API
+		n = genScaleCount(t, "scale-items", 513, 2049)
+		np := rapid.IntRange(0, 2).Draw(t, "pathlen")
+		for i := 0; i < np; i++ {
+			path = append(path, rapid.IntRange(0, 3).Draw(t, "pathidx"))
+		}
+		bulk = Edit{Op: "bulk-append", Path: path, N: n, BlockEvery: genBlockEvery(t)}
+		bulkAt = rapid.SampledFrom([]int{0, ne / 2, ne}).Draw(t, "bulk-at") // before / in the middle of / behind the edits
+	}
+	c.Edits = nil
+	for i := 0; i <= ne; i++ {
+		if i == bulkAt {
+			c.Edits = append(c.Edits, bulk)
+		}
+		if i == ne {
+			break
+		}
+		e := genEdit(t)
+		if rapid.IntRange(0, 3).Draw(t, "aimed") > 0 {
+			// aimed at the large body, at names across it; half of these are the
+			// attribute operations (set, remove, set again what was removed)
+			e.Path = path
+			e.Name = aimedName(t, n)
+			if rapid.Bool().Draw(t, "attribute-op") {
+				switch rapid.SampledFrom([]string{"set-value", "remove-attr", "remove-attr", "set-again"}).Draw(t, "attr-op") {
+				case "set-value":
+					if e.Op != "set-value" && e.Op != "set-raw" && e.Op != "set-traversal" {
+						e = Edit{Op: "set-raw", Path: path, Name: e.Name, Raw: rapid.SampledFrom(rawExprs).Draw(t, "raw")}
+					}
+				case "remove-attr":
+					e = Edit{Op: "remove-attr", Path: path, Name: e.Name}
+				default:
+					e = Edit{Op: "set-raw", Path: path, Name: 4, Raw: rapid.SampledFrom(rawExprs).Draw(t, "raw")}
+				}
+			}
+		}
+		c.Edits = append(c.Edits, e)
+	}
 }
 
 var rawExprs = []string{"1 + 2", "foo(bar, 1)", "[1, 2, x]", "a.b[0]", "\"s-${v}\"", "!x", "{ k = 1 }", "c ? 1 : 2"}
@@ -159,6 +243,10 @@ func genB(t *rapid.T) CaseB {
 	for i := 0; i < n; i++ {
 		c.Edits = append(c.Edits, genEdit(t))
 	}
+	if oneIn(t, "scale", scaleShareB()) {
+		genScaleB(t, &c)
+		n = len(c.Edits)
+	}
 	c.Reuse = genReuse(t)
 	if c.Reuse != reuseNone {
 		c.ReuseAt = rapid.IntRange(0, n).Draw(t, "reuse-at")
@@ -228,14 +316,7 @@ type model struct {
 	mutateArgs bool // the caller overwrites the slices it passed to the write API
 }
 
-func tokIndexAt(toks []tk, off int) int {
-	for i, t := range toks {
-		if t.Start >= off {
-			return i
-		}
-	}
-	return len(toks)
-}
+func tokIndexAt(toks []tk, off int) int { return tokLowerBound(toks, off) }
 
 func endsLine(t tk) bool {
 	return t.Type == hclsyntax.TokenNewline || (t.Type == hclsyntax.TokenComment && strings.HasSuffix(t.Bytes, "\n"))
@@ -446,6 +527,25 @@ func (md *model) apply(e *Edit, wroot *hclwrite.Body, ap *applied) {
 	}
 	ap.ops[e.Op] = true
 	switch e.Op {
+	case "bulk-append":
+		// N items through the API, one real call each; the names are new
+		for i := 0; i < e.N; i++ {
+			if mb.unterminated != "" && ap.appendOpen == "" {
+				ap.appendOpen = mb.unterminated
+			}
+			mb.unterminated = ""
+			if e.BlockEvery > 0 && i%e.BlockEvery == e.BlockEvery-1 {
+				wb.AppendNewBlock("bulk_new", []string{fmt.Sprint(i)})
+				mb.items = append(mb.items, &mItem{b: &mBlock{typ: "bulk_new", labels: []string{fmt.Sprint(i)}, body: &mBody{}}})
+				continue
+			}
+			md.newN++
+			name := fmt.Sprintf("new_attr_%d", md.newN)
+			val, ty := bulkValue(i)
+			v := cfggen.Typed(val, ty)
+			wb.SetAttributeValue(name, v)
+			mb.items = append(mb.items, &mItem{a: &mAttr{name: name, kind: "value", val: v}})
+		}
 	case "set-value":
 		name, it := pickName()
 		v := cfggen.Typed(e.Val, e.Type)
@@ -743,7 +843,8 @@ func checkB(c CaseB) *core.Violation {
 func checkB1(c CaseB, k *keeper) *core.Violation {
 	// the caller's buffer; the model is built from the scanner's tokens (string copies)
 	// before the buffer is used again
-	cb := newCallerBuf(c.Reuse, c.Src, c.Over, reuseFallbackConfig)
+	full := c.source()
+	cb := newCallerBuf(c.Reuse, full, c.Over, reuseFallbackConfig)
 	src := cb.b
 	parsed, pd := hclsyntax.ParseConfig(src, "", startPos)
 	if pd.HasErrors() {
@@ -801,6 +902,9 @@ func checkB1(c CaseB, k *keeper) *core.Violation {
 		// the file is serialised after every edit, through alternating entry points,
 		// and every result is retained (File.Bytes formats the tree in place, which
 		// changes nothing the model looks at)
+		if !serialiseAfter(i, len(c.Edits)) {
+			continue
+		}
 		switch (i + len(c.Src)) % 4 {
 		case 0:
 			k.keep("File.Bytes", f.Bytes())
@@ -814,9 +918,9 @@ func checkB1(c CaseB, k *keeper) *core.Violation {
 	reuseNow(len(c.Edits))
 	out := k.keep("File.Bytes", f.Bytes())
 	// one more serialisation of different content before the output is looked at
-	k.keep("Format", hclwrite.Format([]byte(c.Src)))
+	k.keep("Format", hclwrite.Format([]byte(full)))
 	show := func() string {
-		return fmt.Sprintf("edits: %s\noutput:\n%s\nsource:\n%s", clip(fmt.Sprintf("%+v", c.Edits), 1500), clip(string(out), 2500), clip(c.Src, 2500))
+		return fmt.Sprintf("edits: %s\noutput:\n%s\nsource:\n%s", clip(fmt.Sprintf("%+v", c.Edits), 1500), clip(string(out), 2500), clip(full, 2500))
 	}
 	oparsed, od := hclsyntax.ParseConfig(out, "", startPos)
 	// a case in which an item was appended behind a token that does not end its
@@ -894,7 +998,8 @@ var braceCommentRun = regexp.MustCompile(`\{[ \t]*(/\*[^\n]*?\*/[ \t]*)+(#|//)`)
 
 func classifyB(c CaseB) core.Class {
 	var cl core.Class
-	valid, heredoc, comment, template := srcClass(c.Src)
+	full := c.source()
+	valid, heredoc, comment, template := srcClass(full)
 	cl.Labels = append(cl.Labels, "origin:"+c.Origin)
 	if !valid {
 		cl.Labels = append(cl.Labels, "source:rejected-by-parser(skipped)")
@@ -917,11 +1022,54 @@ func classifyB(c CaseB) core.Class {
 	for k := range nums {
 		cl.Labels = append(cl.Labels, k)
 	}
+	many := len(c.Edits) > manyEdits
 	for _, e := range c.Edits {
-		cl.Labels = append(cl.Labels, "op:"+e.Op)
+		if !many || !ops[e.Op] {
+			cl.Labels = append(cl.Labels, "op:"+e.Op)
+		}
 		ops[e.Op] = true
 		if len(e.Path) > 0 {
 			deep = true
+		}
+		if e.Op == "bulk-append" {
+			cl.Labels = append(cl.Labels, scaleLabel("items-per-body(api)", e.N))
+		}
+	}
+	if c.Bulk != nil {
+		cl.Labels = append(cl.Labels, scaleLabel("items-per-body(source)", c.Bulk.N), "scale:file-size:"+sizeBucket(len(full)))
+	}
+	if many {
+		cl.Labels = append(cl.Labels, scaleLabel("edits-per-history", len(c.Edits)))
+	}
+	if c.Bulk != nil || ops["bulk-append"] {
+		// what the history does to the large body
+		seenRemove, reset := false, false
+		for i, e := range c.Edits {
+			switch e.Op {
+			case "bulk-append":
+				pos := "between-the-edits"
+				if i == 0 {
+					pos = "before-the-edits"
+				} else if i == len(c.Edits)-1 {
+					pos = "behind-the-edits"
+				}
+				cl.Labels = append(cl.Labels, "scale:bulk-append-"+pos)
+			case "remove-attr", "remove-first-item":
+				seenRemove = true
+			case "set-value", "set-raw", "set-traversal":
+				if seenRemove && e.Name == 4 {
+					reset = true
+				}
+				if e.Name >= 250 {
+					cl.Labels = append(cl.Labels, "scale:set-aimed-at-name-250-or-beyond")
+				}
+			}
+			if (e.Op == "remove-attr") && e.Name >= 250 {
+				cl.Labels = append(cl.Labels, "scale:remove-aimed-at-name-250-or-beyond")
+			}
+		}
+		if reset {
+			cl.Labels = append(cl.Labels, "scale:remove-then-set-of-removed-name-may-apply")
 		}
 	}
 	if deep {
@@ -963,9 +1111,15 @@ func classifyB(c CaseB) core.Class {
 	} else {
 		cl.Labels = append(cl.Labels, "args:left-alone")
 	}
-	cl.Labels = append(cl.Labels, fmt.Sprintf("nedits:%d", len(c.Edits)))
+	if many {
+		cl.Labels = append(cl.Labels, "nedits:many(serialised-at-checkpoints)")
+	} else {
+		cl.Labels = append(cl.Labels, fmt.Sprintf("nedits:%d", len(c.Edits)))
+	}
 	for i := range c.Edits {
-		cl.Labels = append(cl.Labels, "results:after-edit-via-"+[]string{"File.Bytes", "Tokens.Bytes", "Format+Body.BuildTokens", "none"}[(i+len(c.Src))%4])
+		if serialiseAfter(i, len(c.Edits)) {
+			cl.Labels = append(cl.Labels, "results:after-edit-via-"+[]string{"File.Bytes", "Tokens.Bytes", "Format+Body.BuildTokens", "none"}[(i+len(c.Src))%4])
+		}
 	}
 	var ol []string
 	for o := range ops {
@@ -977,13 +1131,14 @@ func classifyB(c CaseB) core.Class {
 	}
 	cl.NonTrivial = heredoc || comment || template || len(c.Edits) >= 2
 	cl.Fingerprint = fmt.Sprintf("%s|h=%v|c=%v|t=%v|n=%d|%s", c.Origin, heredoc, comment, template, minInt(len(c.Edits), 3), strings.Join(ol, "+"))
+	recordScale("b", cl.Labels)
 	return cl
 }
 
 func TestC20b(t *testing.T) {
 	core.Run(t, core.Spec[CaseB]{
 		Property: "C20", Sub: "b",
-		Rule: "a generated source file (as in C20a) and 1-5 edits, each on the root body or a nested body reached through 0-2 block indices: SetAttributeValue (primitive/list/map/set/any values, arbitrary Unicode strings, numbers at and beyond the int64/uint64 boundaries, huge, tiny, non-terminating fractions, -0, also nested), SetAttributeTraversal (incl. such numbers as index keys), SetAttributeRaw, RemoveAttribute (existing or missing), AppendNewBlock (0-2 labels), RemoveBlock, removal of the first item of a body, SetLabels; the same edits update a model built from hclsyntax's parse. Oracle: the file is serialised after every edit through alternating entry points and every returned slice must stay what it was; the final File.Bytes() parses; every body shows the model's items in order; untouched attributes and block headers keep their tokens; set attributes read back as the value / traversal / tokens given; labels are the model's; comments outside removed or replaced regions are all still there in order and no comment appears. Non-trivial: heredoc, comment or template in the file, or >=2 edits; distinct = (origin, heredoc, comment, template, #edits<=3, first two op kinds). In about half of the cases the caller reuses its input buffers (labels input:caller-reuses-buffer|fill-0xAA / other-source-bytes / next-source-parsed, the other half input:caller-leaves-buffer-alone): as soon as a parsing entry point has returned, the []byte that was passed to it is filled with 0xAA, or overwritten with the bytes of a different generated source of the same length, or truncated and the next source read into the same backing array and parsed; everything obtained from the call is used only after that and must be what it is in the other half (oracles work on a private copy of the text taken before the call). Here: the buffer given to hclwrite.ParseConfig, reused once at a generated point of the history (before the first edit, between two edits, or after the last edit and before the final serialisation; labels input:buffer-reused-*), in mode next-source-parsed a second generated file is loaded through the same backing array. In half of the cases (label args:caller-overwrites-passed-slices-after-call) the caller overwrites every element of the Tokens slice passed to SetAttributeRaw, of the Traversal passed to SetAttributeTraversal and of the label slices passed to AppendNewBlock / SetLabels right after the call returned; the file must keep what was passed at the time of the call (the *Token values the Tokens slice pointed to are not written: NewExpressionRaw copies the slice only and shares the tokens)",
+		Rule: "a generated source file (as in C20a) and 1-5 edits, each on the root body or a nested body reached through 0-2 block indices: SetAttributeValue (primitive/list/map/set/any values, arbitrary Unicode strings, numbers at and beyond the int64/uint64 boundaries, huge, tiny, non-terminating fractions, -0, also nested), SetAttributeTraversal (incl. such numbers as index keys), SetAttributeRaw, RemoveAttribute (existing or missing), AppendNewBlock (0-2 labels), RemoveBlock, removal of the first item of a body, SetLabels; the same edits update a model built from hclsyntax's parse. Oracle: the file is serialised after every edit through alternating entry points and every returned slice must stay what it was; the final File.Bytes() parses; every body shows the model's items in order; untouched attributes and block headers keep their tokens; set attributes read back as the value / traversal / tokens given; labels are the model's; comments outside removed or replaced regions are all still there in order and no comment appears. Non-trivial: heredoc, comment or template in the file, or >=2 edits; distinct = (origin, heredoc, comment, template, #edits<=3, first two op kinds). In about half of the cases the caller reuses its input buffers (labels input:caller-reuses-buffer|fill-0xAA / other-source-bytes / next-source-parsed, the other half input:caller-leaves-buffer-alone): as soon as a parsing entry point has returned, the []byte that was passed to it is filled with 0xAA, or overwritten with the bytes of a different generated source of the same length, or truncated and the next source read into the same backing array and parsed; everything obtained from the call is used only after that and must be what it is in the other half (oracles work on a private copy of the text taken before the call). Here: the buffer given to hclwrite.ParseConfig, reused once at a generated point of the history (before the first edit, between two edits, or after the last edit and before the final serialisation; labels input:buffer-reused-*), in mode next-source-parsed a second generated file is loaded through the same backing array. In half of the cases (label args:caller-overwrites-passed-slices-after-call) the caller overwrites every element of the Tokens slice passed to SetAttributeRaw, of the Traversal passed to SetAttributeTraversal and of the label slices passed to AppendNewBlock / SetLabels right after the call returned; the file must keep what was passed at the time of the call (the *Token values the Tokens slice pointed to are not written: NewExpressionRaw copies the slice only and shares the tokens). SCALE (about 1 case in 50; labels scale:items-per-body(source|api):<bucket>, scale:edits-per-history:<bucket>, scale:bulk-append-before/between/behind-the-edits, scale:remove-then-set-of-removed-name-may-apply, also counted in the evidence extra c20b_scale_cases_of_one_shard), counts from the threshold-adjacent pool {63,64,65, 127,128,129, 255,256,257, 511,512,513, 999,1000,1001, 1023,1024,1025, 2047,2048,2049, 4095,4096,4097, 8191,8192,8193}: (1) items-in-source: a body of N items (as in C20a, root level or inside 1-2 wrapping blocks, N <= 2049 in the quick tier, thorough 8193) is parsed and 3-8 edits follow; (2) items-via-api: 3-8 edits and one bulk-append edit that appends N items through the API, one real call each (SetAttributeValue of a new name with number/string/bool/list values, every 3rd/16th/100th an AppendNewBlock), before, between or behind the other edits, into the root or a nested body (N <= 513 quick, 2049 thorough: every append re-reads its body's tokens, so N appends are quadratic); in (1) and (2) three edits out of four go to the large body and aim at names across it (first, last, around index 255/256, anywhere, a new name, or the name that was removed last), half of those being attribute operations (set, remove, set again what was removed); (3) edits: a history of N generated edits (N <= 1025 quick, 2049 thorough), the file being serialised after the first four, the middle and the last four edits only. Same oracle on the final file",
 		Gen:  genB, Check: checkB, Classify: classifyB,
 		Assumptions: []string{
 			"hclsyntax's parse of the source and of the output is the trusted observer of structure",
